@@ -1,10 +1,16 @@
 import DendroModel.Basic.Tree
 import DendroModel.Model.C13
+import DendroModel.Model.C13Ext
 open DendroModel DendroModel.C13
 
 /-! line protocol of `drv_c13`
   `op schema cfg nstitle nslabels existing coll tree label tail tok tok …`
-  op ∈ blocks | list | tree | yield | dataset | nosets;  schema ∈ newick | nexus
+  op ∈ blocks | list | tree | yield | dataset | nosets | setsclean | charsclean | yieldfiles | readmany | array | src:<spec>:<op>
+  schema ∈ newick | nexus
+  several sources (yieldfiles, readmany, array): `tail tok … // tail tok … // …` (one group per source, in order)
+  array: `existing` = entries already in the array, `coll` = use_tree_weights (`-`/1 yes, 0 no), `tree` = tree_offset (burn-in)
+  src:<spec>:<op>: the source reaches <op> through the source-keyword dispatch; <spec> = `+`-joined items: a source keyword
+        (`data`, `file`, `path`, …; `kw!` = its argument names nothing that exists), `noschema`, `read` (x.read instead of X.get)
   cfg = rooting char (n u r U R = None, default-unrooted, default-rooted, force-unrooted, force-rooted) followed by
         four 0/1 flags: store_tree_weights, suppress_internal_node_taxa, suppress_leaf_node_taxa, suppress_edge_lengths,
         optionally followed by two more: exclude_chars, attached namespace (default 1 0, what TreeList.get/Tree.get use;
@@ -80,6 +86,9 @@ def jErr : Err → String
   | .index => "{\"err\":\"IndexError\"}"
   | .value => "{\"err\":\"ValueError\"}"
   | .stuck => "{\"err\":\"stuck\"}"
+  | .type => "{\"err\":\"TypeError\"}"
+  | .mixed => "{\"err\":\"MixedRootingError\"}"
+  | .io => "{\"err\":\"IOError\"}"
 
 def answer (ns : NSObj) (r : String) : String :=
   "{\"ns\":" ++ jList (ns.labels.map fun l => jStr (some l)) ++ ",\"title\":" ++ jStr ns.title ++ ",\"r\":" ++ r ++ "}"
@@ -87,42 +96,124 @@ def answer (ns : NSObj) (r : String) : String :=
 def placeholder (i : Nat) : Tree :=
   { name := some s!"e{i}", rooted := none, weight := none, coms := [], root := blankNode [] }
 
+/-- split the words after the header into one group per source: `tail tok … // tail tok …` -/
+def splitDocs (ws : List String) : List (List String) :=
+  let rec go (cur : List String) (acc : List (List String)) : List String → List (List String)
+    | [] => (cur.reverse :: acc).reverse
+    | w :: r => if w == "//" then go [] (cur.reverse :: acc) r else go (w :: cur) acc r
+  go [] [] ws
+
+def parseDoc (ws : List String) : Option Content :=
+  match ws with
+  | tail :: toks =>
+    match parseStrList tail, toks.mapM parseTok with
+    | some tail, some toks => some { toks := toks, tail := tail }
+    | _, _ => none
+  | [] => none
+
+def jBool (b : Bool) : String := if b then "true" else "false"
+
+def jArr (a : Arr) (added : Nat) : String :=
+  "{\"rooted\":" ++ (match a.rooted with | some true => "true" | some false => "false" | none => "null")
+    ++ ",\"added\":" ++ toString added
+    ++ ",\"entries\":" ++ jList (a.entries.map fun e => "{\"w\":" ++ jStr e.weight ++ ",\"t\":" ++ jTree e.tree ++ "}") ++ "}"
+
+/-- the ops that read ONE source -/
+def runOne (op : String) (sch : Schema) (cfg : Cfg) (fl : Flags) (ns : NSObj) (ex : Nat) (coll tree : Option Int) (label : Option String)
+    (d : Content) : String :=
+  let toks := d.toks
+  let tail := d.tail
+  match op with
+  | "blocks" =>
+    match readBlocks sch cfg fl toks tail ns with
+    | .error e => jErr e
+    | .ok (bs, ns') => answer ns' (jList (bs.map fun b => jList (b.map jTree)))
+  | "list" =>
+    match listGet sch cfg fl toks tail ns ((List.range ex).map placeholder) coll tree with
+    | .error e => jErr e
+    | .ok (l, ns') => answer ns' (jList (l.map jTree))
+  | "tree" =>
+    match treeGet sch cfg fl toks tail ns coll tree label with
+    | .error e => jErr e
+    | .ok (t, ns') => answer ns' (jTree t)
+  | "yield" =>
+    match yieldFrom sch cfg fl toks tail ns with
+    | .error e => jErr e
+    | .ok (l, ns') => answer ns' (jList (l.map jTree))
+  | "nosets" =>
+    -- is the document in the domain of `reader_eq_yielder_partial`?  (no SETS-class block at all, on the list run)
+    if sch == .nexus then
+      toString (Aux.noSetsBlocks cfg fl pseudoSink { (coreOf toks tail ns) with ts := (coreOf toks tail ns).ts.next } ([] : List Tree))
+    else "true"
+  | "setsclean" =>
+    -- hypothesis `hs` of `reader_eq_yielder` / `yield_eq_list_nexus`, on the run of the iterator (attached namespace)
+    if sch == .nexus then
+      toString (Aux.setsClean cfg { fl with attached := true } { (coreOf toks tail ns) with ts := (coreOf toks tail ns).ts.next } [])
+    else "true"
+  | "charsclean" =>
+    -- hypothesis `hc` of `dataset_eq_lists`, on the run of the data set route
+    if sch == .nexus then
+      toString (Aux.charsClean cfg fl freshSink { (coreOf toks tail ns) with ts := (coreOf toks tail ns).ts.next } [])
+    else "true"
+  | "dataset" =>
+    match datasetRead sch cfg fl toks tail ns ((List.range ex).map fun i => [placeholder i]) with
+    | .error e => jErr e
+    | .ok (bs, ns') => answer ns' (jList (bs.map fun b => jList (b.map jTree)))
+  | _ => "bad-op"
+
+def parseSpecItem (content : Content) (item : String) : Option (String × SrcArg) :=
+  let missing := item.endsWith "!"
+  let kw := if missing then (item.dropEnd 1).toString else item
+  if kw.isEmpty then none
+  else if kw == "path" || kw == "url" then some (kw, .name (if missing then "missing" else "p"))
+  else if missing then none
+  else some (kw, .text content)
+
 def handle (ws : List String) : String :=
   match ws with
-  | op :: schema :: cfg :: nstitle :: nslabels :: existing :: coll :: tree :: label :: tail :: toks =>
+  | op :: schema :: cfg :: nstitle :: nslabels :: existing :: coll :: tree :: label :: rest =>
     let sch : Option Schema := if schema == "newick" then some .newick else if schema == "nexus" then some .nexus else none
     match sch, parseCfg cfg, decodeStr nstitle, parseStrList nslabels, existing.toNat?, parseOInt coll, parseOInt tree,
-          decodeStr label, parseStrList tail, toks.mapM parseTok with
-    | some sch, some (cfg, fl), some title, some labels, some ex, some coll, some tree, some label, some tail, some toks =>
+          decodeStr label, (splitDocs rest).mapM parseDoc with
+    | some sch, some (cfg, fl), some title, some labels, some ex, some coll, some tree, some label, some docs =>
       let ns : NSObj := { labels := labels, title := title }
-      match op with
-      | "blocks" =>
-        match readBlocks sch cfg fl toks tail ns with
-        | .error e => jErr e
-        | .ok (bs, ns') => answer ns' (jList (bs.map fun b => jList (b.map jTree)))
-      | "list" =>
-        match listGet sch cfg fl toks tail ns ((List.range ex).map placeholder) coll tree with
-        | .error e => jErr e
-        | .ok (l, ns') => answer ns' (jList (l.map jTree))
-      | "tree" =>
-        match treeGet sch cfg fl toks tail ns coll tree label with
-        | .error e => jErr e
-        | .ok (t, ns') => answer ns' (jTree t)
-      | "yield" =>
-        match yieldFrom sch cfg fl toks tail ns with
-        | .error e => jErr e
-        | .ok (l, ns') => answer ns' (jList (l.map jTree))
-      | "nosets" =>
-        -- is the document in the domain of `yield_eq_list_nexus` / `reader_eq_yielder_partial`?  (hypothesis `hs`, on the list run)
-        if sch == .nexus then
-          toString (Aux.noSetsBlocks cfg fl pseudoSink { (coreOf toks tail ns) with ts := (coreOf toks tail ns).ts.next } ([] : List Tree))
-        else "true"
-      | "dataset" =>
-        match datasetRead sch cfg fl toks tail ns ((List.range ex).map fun i => [placeholder i]) with
-        | .error e => jErr e
-        | .ok (bs, ns') => answer ns' (jList (bs.map fun b => jList (b.map jTree)))
+      match op.splitOn ":" with
+      | [op] =>
+        match op with
+        | "yieldfiles" =>
+          match yieldFiles sch cfg fl docs ns with
+          | .error e => jErr e
+          | .ok (tss, ns') => answer ns' (jList (tss.map fun b => jList (b.map jTree)))
+        | "readmany" =>
+          match readMany sch cfg fl docs ns ((List.range ex).map placeholder) with
+          | .error e => jErr e
+          | .ok (l, ns') => answer ns' (jList (l.map jTree))
+        | "array" =>
+          let a0 : Arr := { useWeights := coll != some 0,
+                            entries := (List.range ex).map fun i => { tree := placeholder i, weight := none } }
+          match arrReadFromFiles sch cfg fl (tree.getD 0) a0 docs ns with
+          | .error e => jErr e
+          | .ok (a, ns') => answer ns' (jArr a (a.entries.length - ex))
+        | _ =>
+          match docs with
+          | [d] => runOne op sch cfg fl ns ex coll tree label d
+          | _ => "bad-op"
+      | ["src", spec, inner] =>
+        match docs with
+        | [d] =>
+          let items := spec.splitOn "+"
+          let viaRead := items.contains "read"
+          let hasSchema := !items.contains "noschema"
+          match (items.filter fun i => i != "read" && i != "noschema" && i != "none").mapM (parseSpecItem d) with
+          | none => "bad-op"
+          | some given =>
+            let w : World := { files := [("p", d)], urls := [("p", d)] }
+            match (if viaRead then readFrom w given hasSchema else getFrom w given hasSchema) with
+            | .error e => jErr e
+            | .ok c => runOne inner sch cfg fl ns ex coll tree label c
+        | _ => "bad-op"
       | _ => "bad-op"
-    | _, _, _, _, _, _, _, _, _, _ => "bad-op"
+    | _, _, _, _, _, _, _, _, _ => "bad-op"
   | _ => "bad-op"
 
 def main : IO Unit := do driverLoop (← IO.getStdin) handle
